@@ -523,7 +523,7 @@ class CMakeTraceParser:
             if append:
                 tgt.properties[identifier] += value
             else:
-                tgt.properties[identifier] = value
+                tgt.properties[identifier] = list(value)
 
         def do_source(src: str) -> None:
             if identifier != 'HEADER_FILE_ONLY' or not self._str_to_bool(value):
@@ -603,7 +603,7 @@ class CMakeTraceParser:
                 if i not in self.targets:
                     return self._gen_exception('set_target_properties', f'TARGET {i} not found', tline)
 
-                self.targets[i].properties[name] = value
+                self.targets[i].properties[name] = list(value)
 
     def _cmake_add_dependencies(self, tline: CMakeTraceLine) -> None:
         # DOC: https://cmake.org/cmake/help/latest/command/add_dependencies.html
